@@ -6,7 +6,7 @@ toolchain go1.23.5
 
 require (
 	github.com/alicebob/miniredis/v2 v2.23.0
-	github.com/go-redis/redis/v8 v8.11.5
+	github.com/dgraph-io/badger/v4 v4.2.0
 	github.com/gorilla/websocket v1.5.0
 	github.com/mochi-mqtt/server/v2 v2.0.0
 	pgregory.net/rapid v1.3.0
@@ -23,11 +23,11 @@ require (
 	github.com/cockroachdb/redact v1.1.5 // indirect
 	github.com/cockroachdb/tokenbucket v0.0.0-20230807174530-cc333fc44b06 // indirect
 	github.com/davecgh/go-spew v1.1.1 // indirect
-	github.com/dgraph-io/badger/v4 v4.2.0 // indirect
 	github.com/dgraph-io/ristretto v0.1.1 // indirect
 	github.com/dgryski/go-rendezvous v0.0.0-20200823014737-9f7001d12a5f // indirect
 	github.com/dustin/go-humanize v1.0.0 // indirect
 	github.com/getsentry/sentry-go v0.18.0 // indirect
+	github.com/go-redis/redis/v8 v8.11.5 // indirect
 	github.com/gogo/protobuf v1.3.2 // indirect
 	github.com/golang/glog v1.2.4 // indirect
 	github.com/golang/groupcache v0.0.0-20200121045136-8c9f03a8e57e // indirect
